@@ -417,6 +417,13 @@ func (b *BlockWise[C]) handleReceivedMessage(w *responsewriter.ResponseWriter[C]
 }
 
 func (b *BlockWise[C]) createSendingMessage(sendingMessage *pool.Message, maxSZX SZX, maxMessageSize uint32, block uint32) (sendMessage *pool.Message, more bool, err error) {
+	return b.createSendingMessageAt(sendingMessage, maxSZX, maxMessageSize, block, true)
+}
+
+// createSendingMessageAt creates the message carrying one block. For Block1 the block option of a
+// continuation names the block the peer has just acknowledged, so the next one is sent
+// (afterAcknowledged); when a transfer is started the named block itself is sent.
+func (b *BlockWise[C]) createSendingMessageAt(sendingMessage *pool.Message, maxSZX SZX, maxMessageSize uint32, block uint32, afterAcknowledged bool) (sendMessage *pool.Message, more bool, err error) {
 	blockType := message.Block2
 	sizeType := message.Size2
 	token := sendingMessage.Token()
@@ -444,7 +451,7 @@ func (b *BlockWise[C]) createSendingMessage(sendingMessage *pool.Message, maxSZX
 	szx = getSzx(szx, maxSZX)
 	newBufLen := bufferSize(szx, maxMessageSize)
 	off := num * szx.Size()
-	if blockType == message.Block1 {
+	if blockType == message.Block1 && afterAcknowledged {
 		// For block1, we need to skip the already sent bytes.
 		off += newBufLen
 	}
@@ -544,7 +551,7 @@ func (b *BlockWise[C]) startSendingMessage(w *responsewriter.ResponseWriter[C], 
 	if payloadSize < maxSZX.Size() {
 		return nil
 	}
-	sendingMessage, _, err := b.createSendingMessage(w.Message(), maxSZX, maxMessageSize, block)
+	sendingMessage, _, err := b.createSendingMessageAt(w.Message(), maxSZX, maxMessageSize, block, false)
 	if err != nil {
 		return fmt.Errorf("handleSendingMessage: cannot create sending message: %w", err)
 	}
